@@ -83,8 +83,21 @@ def impl_main(mode, fin, fout):
         viol = []
         try:
             decays = {n: DecayMode(bf, list(ds), **info) for n, bf, ds, info in c["decays"]}
-            dc = DecayChain(c["mother"], decays)
             p1, p2 = c["patterns"]
+            if c.get("pre"):
+                # the chain object is first rendered in another state (one mode with other daughters), then that mode is edited IN
+                # PLACE to the state of this case: the descriptor must be that of the chain as it now is
+                from decaylanguage import DaughtersDict
+                nm, pds = c["pre"]
+                post = decays[nm]
+                decays[nm] = DecayMode(post.bf, list(pds), **dict(post.metadata))
+                dc = DecayChain(c["mother"], decays)
+                with DescriptorFormat(p1, p2):
+                    dc.to_string()
+                dc.to_string()
+                dc.decays[nm].daughters = DaughtersDict(post.daughters.to_list())
+            else:
+                dc = DecayChain(c["mother"], decays)
             with DescriptorFormat(p1, p2):
                 s = dc.to_string()
             res = s
@@ -149,7 +162,11 @@ def main():
                 alts.append(alt)
             pats = [PATTERNS[0], rng.choice(PATTERNS[1:])]
             for p in pats:
-                cases.append({"mother": ch["mother"], "decays": ch["decays"], "alts": alts, "patterns": list(p)})
+                case = {"mother": ch["mother"], "decays": ch["decays"], "alts": alts, "patterns": list(p)}
+                if rng.random() < 0.2:
+                    d0 = rng.choice(case["decays"])
+                    case["pre"] = [d0[0], [x for x in d0[2] if x not in {d[0] for d in case["decays"]}] + ["zz_pre"]]
+                cases.append(case)
                 a = alts[0]
                 cases.append({"mother": ch["mother"], "decays": a, "alts": [], "patterns": list(p)})
     impl = vlib.run_impl("c13.py", enc(cases))
